@@ -45,6 +45,15 @@ Theorem C07_exact_code_eq_spec : forall (pts : list pt) (y : Q), Cdf.increasing 
 Proof. exact exact_line_eq_spec. Qed.
 Print Assumptions C07_exact_code_eq_spec.
 
+(* code-faithful trapezoidal method = trapezoid rule applied to w (F-H)^2, (1-H) w (F-H)^2, H w (F-H)^2 (H = observation CDF) *)
+Theorem C07_trapz_code_eq_spec : forall (pts : list pt) (y : Q),
+  let r := crps_trapz_line (map tq pts) (fins (map fq pts)) (observed_cdf_line (XFin y) (map tq pts)) (fins (map wq pts)) in
+  fst (fst r) =x= XFin (fst (fst (spec_trapz pts y))) /\
+  snd (fst r) =x= XFin (snd (fst (spec_trapz pts y))) /\
+  snd r =x= XFin (snd (spec_trapz pts y)).
+Proof. exact trapz_line_fin. Qed.
+Print Assumptions C07_trapz_code_eq_spec.
+
 (* under + over = total, both >= 0 (exact), wherever the observation lies *)
 Theorem C07_under_over_total_exact : forall (pts : list pt) (y : Q),
   Cdf.increasing (map tq pts) = true -> (forall p, In p pts -> 0 <= wq p) ->
